@@ -622,7 +622,36 @@ fn count_ty(g: &mut Gen, t: &Ty) {
     g.count(&format!("ty:{}", k));
 }
 
+/// implementation-only: 128-bit integer targets on both text paths (a real derived struct; `Ty` has no
+/// 128-bit leaves). Repaired defect: the reader path had no deserialize_i128 / deserialize_u128.
+fn exec_wide(w: &[&str], obs: &mut Obs) -> Option<String> {
+    if let ["x-wide-ints", h] = w {
+        #[derive(serde::Deserialize, Debug, PartialEq)]
+        struct Wide { a: i128, b: u128, c: Option<i128> }
+        let d = unhex(h)?;
+        let tape: Result<Wide, _> = jomini::text::de::from_windows1252_slice(&d);
+        let rdr: Result<Wide, _> = jomini::text::de::from_windows1252_reader(&d[..]);
+        let show = |r: &Result<Wide, jomini::Error>| match r { Ok(v) => format!("{:?}", v).replace(' ', ""), Err(_) => "err".to_string() };
+        if show(&tape) != show(&rdr) {
+            obs.violation("paths-disagree-wide-ints", &w.join(" "), &format!("tape {} reader {}", show(&tape), show(&rdr)));
+        }
+        return Some(format!("ok {}", show(&tape)));
+    }
+    None
+}
+
+pub fn gen_wide(g: &mut Gen) {
+    for txt in ["a=1 b=2", "a=-170141183460469231731687303715884105728 b=5", "a=-9223372036854775808 b=18446744073709551615 c=7", "b=3 a=4 c=-1", "a=x b=1", "a=1"] {
+        g.emit(format!("x-wide-ints {}", hex(txt.as_bytes())));
+    }
+    for _ in 0..50 {
+        let a = g.rng.next() as i64; let b = g.rng.next();
+        g.emit(format!("x-wide-ints {}", hex(format!("a={} b={}\nc = {}", a, b, a / 3).as_bytes())));
+    }
+}
+
 pub fn exec(w: &[&str], obs: &mut Obs) -> Option<String> {
+    if let Some(r) = exec_wide(w, obs) { return Some(r); }
     let case = || w.join(" ");
     match w {
         ["tde_tape", enc, ty, tape, h, expect] => {
@@ -766,6 +795,7 @@ fn emit_pair_with(g: &mut Gen, enc: Enc, ty: &Ty, data: &[u8], expect: Option<&s
 }
 
 pub fn gen(g: &mut Gen) {
+    gen_wide(g);
     // 0. fixed witnesses of repaired findings (also kept in corpus/C02.txt): `==` after a key on the
     //    streaming path (layout- and chunk-dependent before 42b6207), operators on a first field (F9)
     for (ty, text, expect) in [
